@@ -37,7 +37,7 @@ Definition out_matches (a c : out) : bool :=
 Definition fout_matches (a c : fout) : bool :=
   match a, c with
   | FO x, FO y => out_matches x y
-  | FE FDuplicateName, FE FDuplicateName | FE FOverwrite, FE FOverwrite => true
+  | FE FDuplicateName, FE FDuplicateName | FE FOverwrite, FE FOverwrite | FE FTraversal, FE FTraversal => true
   | _, _ => false end.
 Fixpoint all2 {A} (f : A -> A -> bool) (l1 l2 : list A) : bool :=
   match l1, l2 with
@@ -48,7 +48,7 @@ Fixpoint all2 {A} (f : A -> A -> bool) (l1 l2 : list A) : bool :=
 
 
 def _vm_key(t):
-    a, b, c = t.split(",")
+    a, b, c = t.split("@")[0].split(",")
     return "(%s, %s, %s)" % (a, b, c)
 
 
@@ -56,6 +56,12 @@ def _vm_links(l):
     if l in ("-", ""):
         return "[]"
     return "[" + "; ".join(_vm_key(k) for k in l.split("+")) + "]"
+
+
+def _vm_titled(l):
+    if l in ("-", ""):
+        return "[]"
+    return "[" + "; ".join("(%s, %s)" % (_vm_key(k), k.split("@")[1]) for k in l.split("+") if "@" in k) + "]"
 
 
 def _vm_desc(t):
@@ -71,13 +77,13 @@ def _vm_ref(t):
 def _vm_blob(t):
     main, _, pre = t.partition("~")
     p = main.split(",", 2)
-    links = _vm_links(p[2])
+    links, tl = _vm_links(p[2]), _vm_titled(p[2])
     if pre:
         q = pre.split(",", 1)
-        ph, pl = q[0], _vm_links(q[1])
+        ph, pl, ptl = q[0], _vm_links(q[1]), _vm_titled(q[1])
     else:
-        ph, pl = p[0], links
-    return "(mkBlob %s %s %s %s %s)" % (p[0], p[1], links, ph, pl)
+        ph, pl, ptl = p[0], links, tl
+    return "(mkBlobT %s %s %s %s %s %s %s)" % (p[0], p[1], links, ph, pl, tl, ptl)
 
 
 def _vm_op(t):
@@ -103,6 +109,8 @@ def _vm_out(t, filek):
         return "FE FDuplicateName"
     if t == "err:overwrite":
         return "FE FOverwrite"
+    if t == "err:traversal":
+        return "FE FTraversal"
     if t == "ok":
         o = "OOk"
     elif t.startswith("err:"):
@@ -179,7 +187,7 @@ def _c06_vm_sample(d, tier, coq, build, want=120):
 
 CONFIG = {
     "properties_file": "Properties/C06.v",
-    "proof_files": ["Base/Prelude.v", "Proofs/Stores.v", "Proofs/StoresConc.v", "Proofs/StoresConcOci.v", "Proofs/StoresConcOci2.v", "Proofs/StoresConcFile.v"],
+    "proof_files": ["Base/Prelude.v", "Proofs/Stores.v", "Proofs/StoresConc.v", "Proofs/StoresConcOci.v", "Proofs/StoresConcOci2.v", "Proofs/StoresConcFile.v", "Proofs/StoresFile.v"],
     "model_files": ["Generated/GC06.v", "Model/Stores.v", "Model/StoresConc.v", "Model/StoresConcOci.v", "Model/StoresConcFile.v"],
     "extract": "XC06.v",
     "ml_main": "c06_main.ml",
@@ -198,7 +206,7 @@ CONFIG = {
         "Predecessors results are compared as sets projected to descriptor.FromOCI (media type, digest, size); Tags compared sorted",
     ],
     "level_text": "Coq theorems over all operation histories: the memory store (cas.Memory + resolver.Memory{index,tags} + graph.Memory{nodes,predecessors,successors}) and the OCI layout store (blobs by digest + implicit tag-by-digest + Resolve/resolveBlob fallback + Untag + Delete without AutoGC + Tags) refine an abstract content map + tag map (equal outputs, equal maps, Predecessors = stored manifests whose successor list contains the node); a refused or failed operation leaves the whole concrete state unchanged; Fetch returns exactly the pushed bytes, re-push is already-exists and a no-op, Resolve returns the most recent Tag, absent content is not-found, Delete clears content and names; the Delete loop is independent of Go's map iteration order; file store: no Fetch returns bytes not matching the digest, failed operations are no-ops on the repaired code (refuted with a witness on the code as found), duplicate-name; every interleaving of the atomic steps of the memory store and of the OCI store (Delete exclusive) reaches at quiescence the state of a sequential order that keeps program order. Tied to the code by differential runs of random histories (three store kinds, option matrix, concurrent goroutines with a serialisability search on the extracted model) and an independent reference oracle",
-    "level_note": "OCI refinement is proved for canonical histories (one media type/size per digest); OCI quiescent serialisability is proved for the content map, every Resolve answer (names and digest strings) and Predecessors, for a universe with one descriptor and one byte string per digest and references that are never another node's digest string; file-store quiescent serialisability is proved for everything but the graph (named push under its lock = one atomic step; Predecessors harness-only); file store refinement is by invariant + clause theorems, not by a separate abstract spec; two file-store behaviours that contradict the statement are recorded as known findings with _refuted witnesses (unnamed re-push of content present through a named file is accepted; LimitedStorage cuts trailing data)",
+    "level_note": "OCI sequential theorems hold for histories that push and delete content under one descriptor per digest (Fetch/Exists/Tag/Predecessors may use any descriptor of the digest, e.g. the octet-stream one Resolve(<digest>) returns); deleting with a descriptor of another media type leaves a stale graph node (not observable through Predecessors) and is outside the theorems but generated. File store: clause theorems (fetch returns pushed/matches digest, duplicate-name, unnamed re-push refused, resolve-latest, absent-is-not-found, failed-noop) hold -- the first and the last two of them without the aliasing name (two names for one path) and, for failed-noop and the concurrency theorem, without titled successors; Predecessors of the file store is oracle/correspondence only (no refinement to an abstract spec for the file store); with IgnoreNoName an unnamed Push returns nil and discards the content, so 'Fetch returns the pushed bytes' does not apply to it (oracle clause push-ignored). Four file-store behaviours and one OCI behaviour that contradict the statement are known findings with _refuted witnesses / dedicated oracle clauses (unnamed re-push of content present through a named file; LimitedStorage cuts trailing data; second name for a path; restoreDuplicates failing after the store; racing OCI pushes all succeed). Observed but not machine-reported: file.Store.Push = store ; restoreDuplicates ; graph.Index is not atomic, so with titled successors concurrent histories reach states no sequential order produces (a concurrent Tag/Push between store and restore) -- concurrent streams use untitled content. Concurrency: outputs of concurrent operations are constrained only where one atomic step decides them (memory: all but Predecessors; file: Push); OCI outputs are unconstrained. Not generated: oci.ReadOnlyStore (NewFromFS/NewFromTar), GC/AutoGC (C09), index.json contents (C08), file ForceCAS/SkipUnpack/pushDir/AllowPathTraversalOnWrite/NewWithFallbackLimit/Storage, sizes above the 4 MiB fallback limit or the 1 MiB copy buffer, invalid digests, Close.",
     "technique": "machine-checked proof in Coq (refinement of the concrete store state machines to a content map + tag map, invariants by induction over histories, LTS invariant over all interleavings for the memory store) + translator-regenerated media-type tables + model/implementation correspondence on random histories + independent reference oracle",
     "explanation": "theorems quantify over every finite history (and, for the memory store, every schedule of atomic steps); the harness replays random histories over small universes of real blobs/manifests/references on memory.Store, oci.Store and file.Store (IgnoreNoName/DisableOverwrite matrix), compares every result with the extracted model, judges every step against its own content/tag maps and the DAG generator's ground truth, reads the whole state back around failed operations, and for concurrent histories searches a sequential order (respecting real time) of the same operations whose final observable state matches",
 }
